@@ -117,8 +117,10 @@ def construct_unit_string(units: Dict[str, int]) -> str:
 def operate_with_units(operator, *operands):
     """perform an operation with two sets of units"""
 
-    # first unpack any pre-defined units
-    opr_unpacked = [__unpack_unit(operand) for operand in operands]
+    # first unpack any pre-defined units, units that cancel out in the process disappear
+    opr_unpacked = [OrderedDict(
+        (unit, count) for unit, count in __unpack_unit(operand).items() if count != 0
+    ) for operand in operands]
 
     # obtain the results
     result = UNIT_OPERATIONS[operator](*opr_unpacked) if operator in UNIT_OPERATIONS else {}
